@@ -645,9 +645,105 @@ func iteChain(conds, terms []string) string {
 	return r
 }
 
+// topArgs splits "(op a b c)" into op and its top-level arguments; ok is false for atoms.
+func topArgs(x string) (op string, args []string, ok bool) {
+	if len(x) < 3 || x[0] != '(' || x[len(x)-1] != ')' {
+		return "", nil, false
+	}
+	body := x[1 : len(x)-1]
+	d, start, inBar := 0, 0, false
+	var parts []string
+	for i := 0; i < len(body); i++ {
+		c := body[i]
+		if c == '|' {
+			inBar = !inBar
+		}
+		if inBar {
+			continue
+		}
+		switch c {
+		case '(':
+			d++
+		case ')':
+			d--
+			if d < 0 {
+				return "", nil, false
+			}
+		case ' ':
+			if d == 0 {
+				if i > start {
+					parts = append(parts, body[start:i])
+				}
+				start = i + 1
+			}
+		}
+	}
+	if d != 0 || inBar {
+		return "", nil, false
+	}
+	if start < len(body) {
+		parts = append(parts, body[start:])
+	}
+	if len(parts) == 0 {
+		return "", nil, false
+	}
+	return parts[0], parts[1:], true
+}
+
+// simpBool folds the propositional trivia that constant conditions in the code produce: (= a a), (not true), ...
+func simpBool(x string) string {
+	if op, args, ok := topArgs(x); ok {
+		switch {
+		case op == "=" && len(args) == 2 && args[0] == args[1]:
+			return "true"
+		case op == "not" && len(args) == 1:
+			switch simpBool(args[0]) {
+			case "true":
+				return "false"
+			case "false":
+				return "true"
+			}
+		}
+	}
+	return x
+}
+
+func conjuncts(x string) []string {
+	if op, args, ok := topArgs(x); ok && op == "and" {
+		return args
+	}
+	return []string{x}
+}
+
+// mergeComplement: (P and l) or (P and not l) == P
+func mergeComplement(a, b string) (string, bool) {
+	ca, cb := conjuncts(a), conjuncts(b)
+	if len(ca) != len(cb) {
+		return "", false
+	}
+	inB := map[string]bool{}
+	for _, y := range cb {
+		inB[y] = true
+	}
+	var common []string
+	var onlyA []string
+	for _, y := range ca {
+		if inB[y] {
+			common = append(common, y)
+		} else {
+			onlyA = append(onlyA, y)
+		}
+	}
+	if len(onlyA) != 1 || !inB[notT(onlyA[0])] || len(common) != len(ca)-1 {
+		return "", false
+	}
+	return andAll(common...), true
+}
+
 func andAll(xs ...string) string {
 	var ys []string
 	for _, x := range xs {
+		x = simpBool(x)
 		if x == "" || x == "true" {
 			continue
 		}
@@ -668,6 +764,7 @@ func andAll(xs ...string) string {
 func orAll(xs ...string) string {
 	var ys []string
 	for _, x := range xs {
+		x = simpBool(x)
 		if x == "" || x == "false" {
 			continue
 		}
@@ -675,6 +772,24 @@ func orAll(xs ...string) string {
 			return "true"
 		}
 		ys = append(ys, x)
+	}
+	// (P and l) or (P and not l) == P, repeatedly (the two arms of a branch meeting again)
+	for changed := true; changed && len(ys) > 1; {
+		changed = false
+	outer:
+		for i := 0; i < len(ys); i++ {
+			for j := i + 1; j < len(ys); j++ {
+				if m, ok := mergeComplement(ys[i], ys[j]); ok {
+					if m == "true" {
+						return "true"
+					}
+					ys[i] = m
+					ys = append(ys[:j], ys[j+1:]...)
+					changed = true
+					break outer
+				}
+			}
+		}
 	}
 	switch len(ys) {
 	case 0:
